@@ -107,3 +107,28 @@ def elementwise(case):
     if not (np.array_equal(rs, r[:-1]) and np.array_equal(es, e[1:])):
         bad.append(('symmetric',))
     return dict(reproduced=bool(bad), failing=bad[:5])
+
+
+@reg('C13.intterms')
+def intterms(case):
+    from numdifftools.extrapolation import dea3
+    from ndvc.concrete import dea3_integer_cases
+    cnt, bad = dea3_integer_cases(dea3)
+    return dict(reproduced=bool(bad), failing=bad[:3], cases=cnt, statement='dea3 on integer-typed terms == dea3 on the same terms as floats')
+
+
+@reg('C13.symmetric')
+def symmetric(case):
+    from numdifftools.extrapolation import dea3
+    bad = []
+    for n in range(1, 7):
+        for tail in [(), (1,), (3,)]:
+            shape = (n,) + tail
+            e0 = 1.0 + 0.5 * np.arange(np.prod(shape)).reshape(shape)
+            e1, e2 = e0 + 0.5 * (1 + e0 / 7), e0 + 0.75 * (1 + e0 / 7)
+            r, a = dea3(e0, e1, e2)
+            rs, as_ = dea3(e0, e1, e2, symmetric=True)
+            want = (n - 1,) + tail if n > 1 else shape
+            if np.shape(rs) != want or np.shape(as_) != want or (n > 1 and not (np.array_equal(rs, r[:-1]) and np.array_equal(as_, a[1:]))):
+                bad.append(dict(shape=shape, symmetric_output_shapes=(np.shape(rs), np.shape(as_)), expected_shape=want))
+    return dict(reproduced=bool(bad), failing=bad[:3], statement='symmetric=True returns result[:-1], abserr[1:] for every leading length > 1')
